@@ -39,10 +39,10 @@ def c06_scenarios(topo, origin, blocked_origin):
     TB = ("ipv4", "127.0.0.1", blocked_origin.port)
     out = []
     for proto in ("http", "socks5", "socks4"):
-        for up in ("direct", "uphttp", "upsocks5", "upsocks4"):
+        for up in ("direct", "uphttp", "upsocks5", "upsocks4", "uphttp6", "upquic"):
             out.append(("ok", proto, up, lambda p=proto, u=up: topo.open(p, u, T), "ok", False))
             out.append(("refused", proto, up, lambda p=proto, u=up: topo.open(p, u, TC), "fail", False))
-        for up in ("uphttp", "upsocks5", "upsocks4"):
+        for up in ("uphttp", "upsocks5", "upsocks4", "uphttp6", "upquic"):
             out.append(("upstream-says-no", proto, up, lambda p=proto, u=up: topo.open(p, u, TB), "fail", True))
         out.append(("deny", proto, "deny", lambda p=proto: topo.open(p, "deny", T), "fail", True))
         out.append(("norule", proto, "none", lambda p=proto: topo.open(p, "none", T), "fail", True))
@@ -233,7 +233,7 @@ def c16_burst(topo, origins, n, rnd, open_keep=2):
                     exp["sport"] = c.s.getsockname()[1]
                     c.close()
                     return exp
-                o = (topo.fakes[up] if kind == "ok-up-early" else origin).accept(3.0)
+                o = (topo.fakes[up] if kind == "ok-up-early" else origin).accept(10.0)
                 glue = getattr(o, "glue", b"") if kind == "ok-up-early" else b""
                 up_bytes = bb.payload("c%d" % i, 100 + 37 * i)
                 down_bytes = bb.payload("s%d" % i, 50 + 11 * i)
